@@ -18,9 +18,14 @@ def acceptInputs : List GlyphInput → List String → List (List Nat) → Optio
     else if !g.cps.isEmpty && cpss.contains g.cps then none
     else (acceptInputs gs (g.name :: names) (g.cps :: cpss)).map (g :: ·)
 
+/-- no string occurs twice (`len(set(names)) == len(names)`) -/
+def nodupB : List String → Bool
+  | [] => true
+  | x :: xs => !xs.contains x && nodupB xs
+
 /-- `config.load`: source file names within a master must be unique; all masters must have the same set -/
 def mastersOk (masters : List (List String)) : Bool :=
-  masters.all (fun m => m.eraseDups.length == m.length) &&
+  masters.all nodupB &&
   match masters with
   | [] => false            -- "Must have at least one master"
   | m :: ms => ms.all fun o => o.all (fun s => m.contains s) && m.all (fun s => o.contains s)
